@@ -225,8 +225,11 @@ def subEvents (eqN : Pt α → Pt α → Bool) (strokeOpen : Bool) (s : SubPath 
 def pathEvents (eqN : Pt α → Pt α → Bool) (subs : List (SubPath α)) (strokeOpen : Bool) : List (Ev α) :=
   subs.flatMap (subEvents eqN strokeOpen)
 
-/-- number of contours appended to the result: an open stroked subpath gives one (rhs ++ cap ++ lhs
-reversed ++ cap), a closed one two (outer and inner), `Offset` takes one side, an empty state list none -/
+/-- number of contours of the RAW outline (`FastStroke`): an open stroked subpath gives one (rhs ++ cap ++ lhs
+reversed ++ cap), a closed one two (`rhs` and `lhs.Reverse()`), `Offset` takes one side, an empty state list
+none. Without `FastStroke` every subpath's outline goes through ONE `Settle(Positive)` — since /repo ff6bd83 also the
+two contours of a closed subpath together (`rhs.Append(lhs.Reverse()).Settle(Positive)`), so the number of
+contours of the settled result depends on the geometry and is judged by the region verdicts only. -/
 def pathContours (subs : List (SubPath α)) (stroke : Bool) : Nat :=
   (subs.map fun s => if s.1.isEmpty then 0 else if stroke && s.2 then 2 else 1).sum
 
